@@ -56,7 +56,7 @@ from vf import progen
 from vf import shrink as shrinker
 
 C01_EXCL = ('no_try_else', 'no_for_target_rebind', 'no_lambda_capture_across_rebind', 'no_impure_chain_middle',
-            'no_jump_in_handler_with_finally')
+            )
 # exclusion flags of the LISTS findings (see the L<nn> replays under replays/C01)
 LIST_EXCL = (
     # (repaired in /repo, generated again) 'no_index_augassign',             # F19 / L06: xs[i] += e -> ag__.update_item_with_op, which no module defines
